@@ -17,6 +17,7 @@ pub mod runloop;
 pub mod sock;
 pub mod mes;
 pub mod elf;
+pub mod nopanic;
 
 use crate::hv::e1::Case;
 use crate::hv::known::Known;
@@ -38,6 +39,7 @@ pub fn build(id: &str, tier: Tier, seed: u64, known: &[Known]) -> Option<Prop> {
         "C12" => elf::c12(tier, seed),
         "C13" => runloop::c13(tier, seed),
         "C14" => mes::c14(tier, seed),
+        "C15" => nopanic::c15(tier, seed),
         "C16" => ports::c16(tier, seed),
         "C17" => timer::c17(tier, seed),
         "C18" => sock::c18(tier, seed),
@@ -82,6 +84,7 @@ pub fn replay_other(prop: &str, doc: &serde_json::Value, path: &std::path::PathB
         Some("c18") => sock::replay_c18(&v["case"]),
         Some("c14") => mes::replay_c14(&v["case"]),
         Some("elf") => elf::replay_elf(&v["case"]),
+        Some("c15") => nopanic::replay_c15(&v["case"]),
         other => {
             println!("no replay handler for engine {:?} (property {})", other, prop);
             return 2;
